@@ -610,6 +610,9 @@ class ModelMixin:
     def m_dict_update(self, recv, h, args, kwargs, st, line):
         if args:
             o = args[0]
+            if isinstance(o, Ref) and st.obj(o).kind == 'smap':
+                self.promote_dict_to_smap(recv, st, st.obj(o).meta['key'])
+                return self.m_smap_update(recv, st.obj(recv), args, kwargs, st, line)
             if isinstance(o, Ref) and st.obj(o).kind == 'dict':
                 h.items.update(st.obj(o).items)
             else:
@@ -670,6 +673,30 @@ class ModelMixin:
         for isin, s2 in self.branch(st, z3.Select(h.meta['present'], kt)):
             out.append(ok(self.smap_value(recv, s2.obj(recv), kt) if isin else default, s2))
         return out
+
+    def m_smap_items(self, recv, h, args, kwargs, st, line):
+        return [ok(st.alloc(HObj('smapitems', meta={'map': recv, 'what': 'items'})), st)]
+
+    def m_smap_keys(self, recv, h, args, kwargs, st, line):
+        return [ok(st.alloc(HObj('smapitems', meta={'map': recv, 'what': 'keys'})), st)]
+
+    def m_smap_copy(self, recv, h, args, kwargs, st, line):
+        return [ok(st.alloc(h.clone()), st)]
+
+    def m_smap_update(self, recv, h, args, kwargs, st, line):
+        o = args[0]
+        if isinstance(o, Ref) and st.obj(o).kind == 'smap':
+            src = st.obj(o).meta
+            ks = h.meta['present'].domain()
+            k = z3.Const('k__', ks)
+            np_ = z3.Array(fresh_name('upd_present'), ks, z3.BoolSort())
+            nv = z3.Array(fresh_name('upd_vals'), ks, h.meta['vals'].range())
+            st.assume(z3.ForAll([k], z3.And(
+                z3.Select(np_, k) == z3.Or(z3.Select(h.meta['present'], k), z3.Select(src['present'], k)),
+                z3.Select(nv, k) == z3.If(z3.Select(src['present'], k), z3.Select(src['vals'], k), z3.Select(h.meta['vals'], k)))))
+            h.meta['present'], h.meta['vals'] = np_, nv
+            return [ok(None, st)]
+        raise EngineError('smap.update with non-map')
 
     def m_smap_pop(self, recv, h, args, kwargs, st, line):
         kt = self.key_term(args[0], h)
@@ -762,7 +789,8 @@ class ModelMixin:
             s2 = st.fork()
             exc = ExcV(ecls, (), tag=fresh_name(f'{name}_exc'))
             ev = Event('ext', f'{recv.kind}.{name}', recv, args, kwargs, None, line, s2.held,
-                       extra={'raised': exc, 'effect_may_have_happened': spec.effect_on_raise})
+                       extra={'raised': exc, 'effect_may_have_happened': spec.effect_on_raise,
+                              'splat': self.splat_snapshot(kwargs, s2)})
             s2.trace.append(ev)
             if spec.effect_on_raise and spec.effect is not None:
                 # both variants: effect happened / did not happen
@@ -773,11 +801,19 @@ class ModelMixin:
         val = spec.returns(self, st, recv, args, kwargs) if callable(spec.returns) else (
             self.make_symbolic(spec.returns, name, st) if spec.returns is not None else None)
         if spec.event:
-            st.trace.append(Event('ext', f'{recv.kind}.{name}', recv, args, kwargs, val, line, st.held))
+            st.trace.append(Event('ext', f'{recv.kind}.{name}', recv, args, kwargs, val, line, st.held,
+                                  extra={'splat': self.splat_snapshot(kwargs, st)}))
         if spec.effect is not None:
             spec.effect(self, st, recv, args, kwargs, val)
         out.append(ok(val, st))
         return out
+
+    def splat_snapshot(self, kwargs, st):
+        v = kwargs.get('**')
+        if isinstance(v, Ref) and st.obj(v).kind == 'smap':
+            m = st.obj(v).meta
+            return {'present': m['present'], 'vals': m['vals'], 'key': m['key']}
+        return None
 
     def check_user_code_and_blocking(self, spec, recv, name, st, line):
         """K4 obligations at calls into user code / blocking calls."""
